@@ -7,8 +7,10 @@ package c10
 import (
 	"bytes"
 	"context"
+	"encoding/binary"
 	"errors"
 	"fmt"
+	"os"
 	"sort"
 	"strconv"
 	"strings"
@@ -34,6 +36,8 @@ func (prop) Rule() string {
 	return "cases: 6-40 ops on one manifest (`new 0|1` optionally restarts it plain/encrypted): add <path> <ref> <meta> / remove <path> / store / reload / lookup <path> / hasprefix <prefix>. " +
 		"Paths over {a,b,/,.} of length 1-40 (some 31-70 bytes for the 30-byte fork-prefix split), drawn so that shared prefixes, nesting, overwrites and path/extension pairs are frequent; " +
 		"three streams: clean (adds with metadata, removes only of keys without extensions and only before the first store — the guard of the partial theorem), mixed (anything), and directed histories for every recorded finding. " +
+		"Big-node cases: fixed `fix-bignode-*` histories (six siblings with 43-56 KB of metadata each, written as the run-length value `c~n`, so that exactly the root node / exactly one inner node / an encrypted inner node is a blob larger than one 256 KiB chunk, and blobs of exactly C and C+32 bytes) with store, reload and lookup/hasprefix of every path, and ~5% of the generated histories start with 4-7 such siblings (38-59 KB each); " +
+		"`lsroundtrip <size> <seed>` (Load(Save(x)) = x on the manifest's own load-saver) at 0,1,31,32,4096,C-1,C,C+1,2C+5 plain and encrypted in `fix-lsroundtrip` and in ~6% of the generated histories. " +
 		"Every case ends by observing all keys ever used plus prefixes. Non-trivial: >=3 adds, >=1 store+reload and >=3 observations; distinct by op-list hash."
 }
 
@@ -76,8 +80,27 @@ func (prop) New() core.Runner {
 }
 func (*runner) Close() {}
 
+// spanStore remembers the spans of the intermediate root chunks put since the last reset (plain manifests
+// only: an encrypted span is not readable here).  Development aid (VERIF_C10_DEBUG=1 prints the blob
+// sizes a Store wrote, to check which node of a big-node case crosses one chunk).
+type spanStore struct {
+	storage.Storer
+	big []uint64
+}
+
+func (s *spanStore) Put(ctx context.Context, mode storage.ModePut, chs ...boson.Chunk) ([]bool, error) {
+	for _, c := range chs {
+		if d := c.Data(); len(d) >= 8 {
+			if sp := binary.LittleEndian.Uint64(d[:8]); sp >= boson.ChunkSize-4096 && sp < 1<<40 {
+				s.big = append(s.big, sp)
+			}
+		}
+	}
+	return s.Storer.Put(ctx, mode, chs...)
+}
+
 func (rn *runner) reset(enc bool) {
-	rn.st = smock.NewStorer()
+	rn.st = &spanStore{Storer: smock.NewStorer()}
 	rn.enc = enc
 	ls := loadsave.New(rn.st, func() pipeline.Interface {
 		return builder.NewPipelineBuilder(rn.ctx, rn.st, storage.ModePutUpload, enc)
@@ -101,26 +124,61 @@ func (rn *runner) entry(b byte) boson.Address {
 	return boson.NewAddress(bytes.Repeat([]byte{b}, n))
 }
 
+// Metadata token: `k=v;k=v` (keys ascending, [a-z0-9]) or `-`.  A value is a literal of at most maxLit
+// characters or — for the big-node cases — ONE run-length value `<c>~<n>` (character c repeated n times,
+// maxLit < n <= maxRun, no leading zero).  The form is canonical: a long value can only be written as a
+// run, a short one only as a literal, so the token itself is the canonical output on both sides.
+const (
+	maxLit = 64
+	maxRun = 60000 // (the format limits the JSON of one entry's metadata to 65535 bytes: ErrMetadataTooLarge)
+)
+
+func alnum(s string) bool {
+	for _, c := range s {
+		if !(c >= 'a' && c <= 'z' || c >= '0' && c <= '9') {
+			return false
+		}
+	}
+	return true
+}
+
 func parseMeta(s string) (map[string]string, bool) {
 	if s == "-" {
 		return nil, true
 	}
 	m := map[string]string{}
 	prev := ""
+	runs := 0
 	for _, kv := range strings.Split(s, ";") {
 		f := strings.SplitN(kv, "=", 2)
-		if len(f) != 2 || f[0] == "" || f[0] <= prev {
+		if len(f) != 2 || f[0] == "" || f[0] <= prev || !alnum(f[0]) || len(f[0]) > maxLit {
 			return nil, false
 		}
-		for _, c := range f[0] + f[1] {
-			if !(c >= 'a' && c <= 'z' || c >= '0' && c <= '9') {
+		v := f[1]
+		if i := strings.IndexByte(v, '~'); i >= 0 {
+			n, err := strconv.Atoi(v[i+1:])
+			if i != 1 || !alnum(v[:1]) || err != nil || v[i+1:] != strconv.Itoa(n) || n <= maxLit || n > maxRun || runs > 0 {
 				return nil, false
 			}
+			runs++
+			v = strings.Repeat(v[:1], n)
+		} else if !alnum(v) || len(v) > maxLit {
+			return nil, false
 		}
 		prev = f[0]
-		m[f[0]] = f[1]
+		m[f[0]] = v
 	}
 	return m, true
+}
+
+func fmtVal(v string) string {
+	if len(v) <= maxLit {
+		return v
+	}
+	if strings.Count(v, v[:1]) == len(v) {
+		return fmt.Sprintf("%s~%d", v[:1], len(v))
+	}
+	return fmt.Sprintf("?%d", len(v)) // cannot have been written by an op: reported as lookup-invented
 }
 
 func fmtMeta(m map[string]string) string {
@@ -134,7 +192,7 @@ func fmtMeta(m map[string]string) string {
 	sort.Strings(ks)
 	var out []string
 	for _, k := range ks {
-		out = append(out, k+"="+m[k])
+		out = append(out, k+"="+fmtVal(m[k]))
 	}
 	return strings.Join(out, ";")
 }
@@ -159,6 +217,9 @@ func (rn *runner) Step(ctx *core.Ctx, op []string) string {
 		}
 		rn.reset(op[1] == "1")
 		return "ok"
+	}
+	if len(op) == 3 && op[0] == "lsroundtrip" {
+		return rn.lsRoundTrip(ctx, op)
 	}
 	var path string
 	switch {
@@ -222,6 +283,9 @@ func (rn *runner) Step(ctx *core.Ctx, op []string) string {
 			}
 			for k := range rn.removeNP { // a removal that was not persisted: the node is back after a reload
 				ends(k)
+			}
+			for _, k := range rn.removed { // a removal leaves the emptied nodes above the key behind (remove-leaves-prefix):
+				ends(k) // branching points and 30-byte split nodes of a removed path are still existing nodes
 			}
 		}
 		if old, ok := rn.mp[path]; ok {
@@ -326,6 +390,10 @@ func (rn *runner) Step(ctx *core.Ctx, op []string) string {
 			rn.dead = true
 			rn.m = nil
 			return "err"
+		}
+		if ss, ok := rn.st.(*spanStore); ok && os.Getenv("VERIF_C10_DEBUG") == "1" {
+			fmt.Fprintf(os.Stderr, "c10: store wrote blobs / chunks with spans near or above one chunk: %v\n", ss.big)
+			ss.big = nil
 		}
 		rn.last = &a
 		rn.persisted = true
@@ -447,6 +515,44 @@ func (rn *runner) Step(ctx *core.Ctx, op []string) string {
 	}
 }
 
+// lsroundtrip <size> <seed>: the narrowest tie to loadsave.go — what Load hands back for the reference
+// Save returned must be the bytes that were saved, whatever their length (the manifest model has no
+// heap: it assumes exactly this of the load-saver for node blobs of every size).  Uses the manifest's own
+// load-saver (plain / encrypted as chosen by `new`); independent of the manifest state.
+func (rn *runner) lsRoundTrip(ctx *core.Ctx, op []string) string {
+	n, e1 := strconv.Atoi(op[1])
+	seed, e2 := strconv.ParseUint(op[2], 10, 32)
+	if e1 != nil || e2 != nil || op[1] != strconv.Itoa(n) || op[2] != strconv.FormatUint(seed, 10) || n < 0 || n > maxBlob {
+		return "bad-op"
+	}
+	data := core.GenBytes(seed, n, 0)
+	ref, err := rn.ls.Save(rn.ctx, data)
+	if err != nil {
+		ctx.Fail("lsroundtrip-save-error", "Save of %d bytes failed: %v", n, err)
+		return "err"
+	}
+	got, err := rn.ls.Load(rn.ctx, ref)
+	if err != nil {
+		ctx.Fail("lsroundtrip-load-error", "Load of the reference Save returned for %d bytes failed: %v", n, err)
+		return "err"
+	}
+	if !bytes.Equal(got, data) {
+		ctx.Fail("lsroundtrip-mismatch", "Load(Save(x)) != x: saved %d bytes, loaded %d bytes (equal prefix: %d bytes)", n, len(got), commonPrefix(got, data))
+		return fmt.Sprintf("differs %d", len(got))
+	}
+	return fmt.Sprintf("same %d", len(got))
+}
+
+const maxBlob = 4 * boson.ChunkSize
+
+func commonPrefix(a, b []byte) int {
+	i := 0
+	for i < len(a) && i < len(b) && a[i] == b[i] {
+		i++
+	}
+	return i
+}
+
 // anyWithPrefixStrict: some removed path strictly extends q (an emptied intermediate node may remain)
 func (rn *runner) anyWithPrefixStrict(q string) bool {
 	for _, r := range rn.removed {
@@ -496,6 +602,84 @@ func genMeta(r *core.Rand, allowEmpty bool) string {
 	return ms[r.Intn(len(ms))]
 }
 
+// bigSiblings: adds of len(sizes) sibling paths <prefix>0<suffix>, <prefix>1<suffix>, … whose metadata carries a
+// run of sizes[i] characters.  The metadata of an entry is serialised into the fork record of its PARENT
+// node, so it is the blob of the node at <prefix> that grows: plain manifests 128 + Σ(64 + M_i) bytes,
+// encrypted 160 + Σ(96 + M_i), M_i = 2 + len(JSON) padded up to the next multiple of 32 (a full extra 32
+// when already aligned), JSON = {"ct":"bin","x":"<run>"} = run + 19 bytes.
+func bigSiblings(prefix, suffix string, sizes []int, ref0 int) (ops []string, paths []string) {
+	for i, n := range sizes {
+		p := fmt.Sprintf("%s%d%s", prefix, i, suffix)
+		ops = append(ops, fmt.Sprintf("add %s %d ct=bin;x=%c~%d", hexs(p), ref0+i, 'a'+byte(i%26), n))
+		paths = append(paths, p)
+	}
+	return
+}
+
+func observeAll(paths []string, prefixes []string) (ops []string) {
+	for _, p := range paths {
+		ops = append(ops, "lookup "+hexs(p))
+	}
+	for _, p := range prefixes {
+		ops = append(ops, "hasprefix "+hexs(p))
+	}
+	return
+}
+
+// bigNodeFixed: manifests with one node blob larger than (or exactly as large as) one chunk:
+// store -> reload -> lookup / hasprefix of every path.
+func bigNodeFixed() []core.Case {
+	const C = boson.ChunkSize
+	cat := func(l ...[]string) (o []string) {
+		for _, x := range l {
+			o = append(o, x...)
+		}
+		return
+	}
+	six := []int{50000, 50000, 50000, 50000, 50000, 50000}
+	// the root node crosses one chunk (300896 bytes): six siblings directly below the root
+	a1, p1 := bigSiblings("", ".bin", six, 10)
+	p1 = append(p1, "index.html")
+	rootBig := cat(a1, []string{"add " + hexs("index.html") + " 1 ct=html", "store", "reload"}, observeAll(p1, []string{"3.", "9", "ind", ""}), []string{"lookup " + hexs("6.bin"), "lookup " + hexs("3.")})
+	// only the inner node "big/" crosses (root: 3 small forks); one big entry is overwritten before the store
+	a2, p2 := bigSiblings("big/", ".bin", six, 16)
+	p2 = append(p2, "index.html", "small/a.txt", "small/b.txt", "big/note.txt")
+	innerBig := cat([]string{"add " + hexs("index.html") + " 1 ct=html", "add " + hexs("small/a.txt") + " 2 ct=text", "add " + hexs("small/b.txt") + " 3 ct=text"}, a2,
+		[]string{"add " + hexs("big/note.txt") + " 4 ct=text", "add " + hexs("big/3.bin") + " 51 ct=bin;x=z~50001"}, observeAll(p2, []string{"big/", "big/3", "small/", "big/9"}),
+		[]string{"store", "reload"}, observeAll(p2, []string{"big/", "big/3", "small/", "ind", "big/9"}), []string{"lookup " + hexs("big/6.bin"), "lookup " + hexs("big/"), "lookup " + hexs("small/c.txt")},
+		// a second round trip of the reopened manifest (reads only since the reload)
+		[]string{"reload"}, observeAll(p2[:3], nil))
+	// blob sizes around the boundary: 128 + 6*64 + ΣM = C exactly (one full data chunk, no intermediate
+	// chunk), and C+32 (the smallest blob with an intermediate root chunk)
+	exact := []int{43594, 43594, 43594, 43594, 43594, 43530}
+	a3, p3 := bigSiblings("", "", exact, 30)
+	plus := []int{43594, 43594, 43594, 43594, 43594, 43562}
+	a4, p4 := bigSiblings("", "", plus, 40)
+	boundary := cat(a3, []string{"store", "reload"}, observeAll(p3, []string{"", "5"}), []string{"new 0"}, a4, []string{"store", "reload"}, observeAll(p4, []string{"", "5"}))
+	// encrypted manifest (64-byte references; every chunk padded and encrypted), inner node big
+	a5, p5 := bigSiblings("d/", "", []int{56000, 56000, 56000, 56000, 56000}, 60)
+	p5 = append(p5, "e")
+	encBig := cat([]string{"new 1", "add " + hexs("e") + " 9 k=v"}, a5, []string{"store", "reload"}, observeAll(p5, []string{"d/", "d/4", "d/5"}))
+	// the load-saver alone, around every chunk boundary, plain and encrypted
+	ls := []string{}
+	for _, e := range []string{"new 0", "new 1"} {
+		ls = append(ls, e)
+		for i, n := range []int{0, 1, 31, 32, 4096, C - 1, C, C + 1, 2*C + 5} {
+			ls = append(ls, fmt.Sprintf("lsroundtrip %d %d", n, i+1))
+		}
+	}
+	ls = append(ls, "lsroundtrip 01 1", "lsroundtrip 1 01", "lsroundtrip -1 1", fmt.Sprintf("lsroundtrip %d 1", 4*C+1), "lsroundtrip 1 4294967296", "lsroundtrip 1",
+		"add "+hexs("a")+" 1 x=a~64", "add "+hexs("a")+" 1 x=a~65;y=b~66", "add "+hexs("a")+" 1 x=aa~65", "add "+hexs("a")+" 1 x=a~065", "add "+hexs("a")+" 1 x=a~60001",
+		"add "+hexs("a")+" 1 x="+strings.Repeat("a", 65), "add "+hexs("a")+" 2 x="+strings.Repeat("a", 64), "add "+hexs("b")+" 3 x=a~65", "lookup "+hexs("a"), "lookup "+hexs("b"))
+	return []core.Case{
+		{ID: "fix-bignode-root", NT: true, Ops: rootBig},
+		{ID: "fix-bignode-inner", NT: true, Ops: innerBig},
+		{ID: "fix-bignode-boundary", NT: true, Ops: boundary},
+		{ID: "fix-bignode-enc", NT: true, Ops: encBig},
+		{ID: "fix-lsroundtrip", NT: false, Ops: ls},
+	}
+}
+
 func (prop) Gen(r *core.Rand, tier string) []core.Case {
 	n := 250
 	if tier == "thorough" {
@@ -511,11 +695,13 @@ func (prop) Gen(r *core.Rand, tier string) []core.Case {
 		{ID: "fix-remove-leaves-prefix", NT: false, Ops: []string{"add " + ab + " 1 k=v", "add " + ac + " 2 k=v", "remove " + ab, "remove " + ac, "hasprefix " + a, "lookup " + ab}},
 		{ID: "fix-overwrite-unloaded-node", NT: false, Ops: []string{"add " + a + " 1 k=v", "add " + x + " 2 k=v", "store", "reload", "add " + a + " 3 k=v", "store", "lookup " + a, "reload", "lookup " + a}},
 		{ID: "fix-overwrite-unloaded-node-2", NT: false, Ops: []string{"add " + a + " 1 k=v", "add " + ab + " 2 k=v", "store", "reload", "add " + a + " 3 k=v", "lookup " + ab, "hasprefix " + ab, "add " + abc + " 4 k=v", "lookup " + a, "reload", "lookup " + ab}},
+		{ID: "fix-overwrite-remnant-node", NT: false, Ops: []string{"add " + hexs("./abba/.a/a.a.aa//.a./aaa.a.baa") + " 5 k=v", "remove " + hexs("./abba/.a/a.a.aa//.a./aaa.a.baa"), "store", "add " + hexs("./abba/.a/a.a.aa//.a./aaa.a.ba") + " 3 k=v", "store"}},
 		{ID: "fix-resurrected-then-overwritten", NT: false, Ops: []string{"add " + x + " 3 -", "store", "remove " + x, "store", "reload", "add " + x + " 3 k=v", "store"}},
 		{ID: "fix-clean-roundtrip", NT: true, Ops: []string{"add " + a + " 1 k=v", "add " + abc + " 2 fn=b", "add " + ab + " 3 z=9", "add " + a + " 4 fn=b", "hasprefix " + ab, "store", "reload",
 			"lookup " + a, "lookup " + ab, "lookup " + abc, "lookup " + ac, "hasprefix " + ac, "hasprefix -", "add " + ac + " 5 k=v", "store", "reload", "lookup " + ac, "lookup " + a}},
 		{ID: "fix-errors", NT: false, Ops: []string{"reload", "remove -", "lookup -", "hasprefix -", "remove " + a, "add zz 1 -", "add " + a + " 0 -", "add " + a + " 1 K=v", "frob", "new 2", "new 1", "add " + a + " 7 k=v", "store", "reload", "lookup " + a}},
 	}
+	cs = append(cs, bigNodeFixed()...)
 	for i := 0; i < n; i++ {
 		c := core.Case{ID: fmt.Sprintf("g%d", i)}
 		stream := r.Intn(10) // 0-5 clean, 6-9 mixed
@@ -525,6 +711,34 @@ func (prop) Gen(r *core.Rand, tier string) []core.Case {
 		}
 		var pool []string
 		keys := map[string]bool{}
+		bigAdds := 0
+		if r.Chance(5) {
+			// a small share of histories starts with 4-7 siblings carrying 38-59 KB of metadata each: the blob of
+			// their parent node lands around / above one chunk (256 KiB), so the later store / reload / lookups
+			// go through a multi-chunk node blob
+			k := r.Range(4, 7)
+			sizes := make([]int, k)
+			for j := range sizes {
+				sizes[j] = r.Range(38000, 59000)
+			}
+			prefix := ""
+			if r.Bool() {
+				prefix = genPath(r, nil)
+				if len(prefix) > 20 {
+					prefix = prefix[:20]
+				}
+			}
+			ops, paths := bigSiblings(prefix, []string{"", ".b", "/a"}[r.Intn(3)], sizes, r.Range(1, 200))
+			c.Ops = append(c.Ops, ops...)
+			for _, p := range paths {
+				pool = append(pool, p)
+				keys[p] = true
+			}
+			bigAdds = k
+		}
+		if r.Chance(6) {
+			c.Ops = append(c.Ops, fmt.Sprintf("lsroundtrip %d %d", r.Pick([]int{0, 1, boson.ChunkSize - 1, boson.ChunkSize, boson.ChunkSize + 1, 2*boson.ChunkSize + 5, r.Range(0, 3*boson.ChunkSize)}), r.Intn(1000)))
+		}
 		snapKeys := map[string]bool{}
 		cp := func(m map[string]bool) map[string]bool {
 			o := map[string]bool{}
@@ -535,7 +749,8 @@ func (prop) Gen(r *core.Rand, tier string) []core.Case {
 		}
 		stored := false
 		readSince := false
-		adds, obs, rt := 0, 0, 0
+		var removedKeys []string
+		adds, obs, rt := bigAdds, 0, 0
 		nops := r.Range(6, 40)
 		for k := 0; k < nops; k++ {
 			switch x := r.Intn(20); {
@@ -551,6 +766,9 @@ func (prop) Gen(r *core.Rand, tier string) []core.Case {
 				if clean && stored {
 					ends := false
 					for q := range keys {
+						ends = ends || strings.HasPrefix(q, p)
+					}
+					for _, q := range removedKeys { // (the emptied nodes of a removed path are still there)
 						ends = ends || strings.HasPrefix(q, p)
 					}
 					if ends {
@@ -577,6 +795,7 @@ func (prop) Gen(r *core.Rand, tier string) []core.Case {
 					}
 				}
 				c.Ops = append(c.Ops, "remove "+hexs(p))
+				removedKeys = append(removedKeys, p)
 				delete(keys, p)
 				readSince = readSince || stored
 			case x < 13:
